@@ -115,6 +115,19 @@ def main():
             inc = re.findall(r"^INCONCLUSIVE .*$", c.stdout, re.M)
             meta["checks"][p] = {"rc": c.returncode, "caught": c.returncode == 1, "wall_s": round(time.time() - t0, 1),
                                  "violation": [v[:400] for v in viol[:2]], "inconclusive": [v[:300] for v in inc[:2]]}
+            # keep the (shrunk) failing plan: it joins the regression tier that every run replays first
+            found = None
+            for v in viol:
+                m = re.search(r"replay=(\S+\.json)", v)
+                if m and os.path.exists(m.group(1)) and "/regress-" not in m.group(1) and "crash-" not in m.group(1):
+                    found = m.group(1)
+                    break
+            if found and confirmed:
+                os.makedirs(os.path.join("/verif/seeded", name), exist_ok=True)
+                shutil.copy(found, os.path.join("/verif/seeded", name, "found-replay-%s.json" % p))
+                os.makedirs(os.path.join("/verif/regress", p), exist_ok=True)
+                shutil.copy(found, os.path.join("/verif/regress", p, "seeded-%s.json" % name))
+                meta["checks"][p]["replay_kept"] = "regress/%s/seeded-%s.json" % (p, name)
             shutil.rmtree(evd, ignore_errors=True)
         if confirmed:
             dst = os.path.join("/verif/seeded", name)
